@@ -3,6 +3,7 @@ import JadeModel.Props.C03Live
 import JadeModel.Props.C03Unique
 import JadeModel.Props.C04
 import JadeModel.Proofs.SystemBound
+import JadeModel.Props.Replica
 
 /-!
 # C03, complete statement
@@ -85,6 +86,14 @@ theorem C03_complete_runs_agree (sc sc' : Scn) (hg : sc.graph = sc'.graph) (rank
     obtain ⟨r', hr', hjob⟩ := List.mem_map.1 ((A.2.1 r.job).2 hj)
     exact ⟨r', hr', hjob, by rw [A.2.2.2 r' hr', B.2.2.2 r hr, hjob, hg]⟩
 
+/-! ### multi-node allocations (`hpc.nodes ≥ 2`, `Model/Replica.lean`): every node of the allocation runs the batch, the
+results file receives exactly what the manager node's queue logged — so the node-level statements above hold for an
+allocation of any size -/
+theorem C03_multinode_rows_eq_manager : type_of% @Jade.Replica.allocation_rows_eq_manager := @Jade.Replica.allocation_rows_eq_manager
+theorem C03_multinode_row_at_most_once : type_of% @Jade.Replica.allocation_row_at_most_once := @Jade.Replica.allocation_row_at_most_once
+theorem C03_multinode_one_row_per_job : type_of% @Jade.Replica.allocation_run_complete := @Jade.Replica.allocation_run_complete
+theorem C03_multinode_worker_records_nothing : type_of% @Jade.Replica.worker_records_nothing := @Jade.Replica.worker_records_nothing
+
 end Jade.C03
 
 /-! ## C01's closing sentence -/
@@ -123,5 +132,8 @@ theorem C01_complete_accounting (sc : Scn) (rank : JobId → Nat) (hac : Acyclic
     · have hle := List.nodup_iff_count.1 (C01_started_at_most_once sc ops s hrun) r.job
       have hpos := List.count_pos_iff.2 hst
       omega
+
+/-- multi-node allocations: every node launches its own copy of each job of the batch, each node at most once -/
+theorem C01_multinode_node_launches_at_most_once : type_of% @Jade.Replica.node_launches_at_most_once := @Jade.Replica.node_launches_at_most_once
 
 end Jade.C01
